@@ -90,7 +90,7 @@ func init() {
 	// ------------------------------------------------------------------ C05
 	register("C05", func(r *Reporter) {
 		r.Cov["rule"] = "TLC enumerates the MemWalk family (counted load/store/read-modify-write loops x byte/half/word x strides x counts x first offsets over an 8 KB memory, followed by a re-reading loop) so that more lines than every cache holds are touched and dirty lines are evicted; plus the LineFill family (two loads of one cold line at different offsets, then a dependent store that changes the line); each case runs on MVP-3..8 x parallelism 1..4; the sum of the re-read values and the whole final memory must equal the sequential ones. Non-trivial = the walk touches more than 16 lines"
-		runFamily(r, "C05", []famRun{famRunOf("MemWalk", sizeForTier()), famRunOf("LineFill", sizeForTier())}, cfgsFrom(3),
+		runFamily(r, "C05", []famRun{famRunOf("MemWalk", sizeForTier()), famRunOf("LineFill", sizeForTier()), famRunOf("Repo", sizeForTier())}, cfgsFrom(3),
 			func(c *ProgCase) bool { return c.Exp.N > 100 || c.Fam == "LineFill" },
 			func(c *ProgCase, o Obs) (bool, string) { return true, o.Describe() })
 	})
@@ -107,7 +107,7 @@ func init() {
 	// ------------------------------------------------------------------ C07
 	register("C07", func(r *Reporter) {
 		r.Cov["rule"] = "all program families (General, Shadow, RegDep, Tail, MemDep, MemWalk) plus the Err family (division/remainder by zero and undefined labels at depth 0..3) on all 33 configurations; plus the cache-controller rig schedules of C06 (pairs, triples, evictions, injected flushes) on MVP-7.0/7.1/8; verdict = the run exceeds its tick budget 8*309*(n+160+32p) (n = sequential instruction count), panics, blocks, or (Err) does not return an error value. Non-trivial = every case"
-		fams := []famRun{famRunOf("Err", sizeForTier()), famRunOf("Shadow", "small"), famRunOf("Tail", "small"), famRunOf("MemDep", "small"), famRunOf("RegDep", "small"), famRunOf("Call", "small"), famRunOf("LineFill", "small")}
+		fams := []famRun{famRunOf("Err", sizeForTier()), famRunOf("Shadow", "small"), famRunOf("Tail", "small"), famRunOf("MemDep", "small"), famRunOf("RegDep", "small"), famRunOf("Call", "small"), famRunOf("LineFill", "small"), famRunOf("Repo", "small")}
 		gr := generalRuns()
 		fams = append(fams, gr[0], gr[len(gr)-1])
 		if tier == "thorough" {
@@ -136,7 +136,7 @@ func init() {
 		var mu sync.Mutex
 		groups := map[string]map[string]map[int]string{} // program -> config -> cycles -> one regs0
 		gr := generalRuns()
-		fams := []famRun{famRunOf("Timing", sizeForTier()), gr[0], gr[1], gr[len(gr)-1], famRunOf("MemWalk", "small"), famRunOf("LineFill", "small")}
+		fams := []famRun{famRunOf("Timing", sizeForTier()), gr[0], gr[1], gr[len(gr)-1], famRunOf("MemWalk", "small"), famRunOf("LineFill", "small"), famRunOf("Repo", sizeForTier())}
 		seqOnly := []Config{{Variant: "mvp1", Par: 1}, {Variant: "mvp2", Par: 1}, {Variant: "mvp3", Par: 1}}
 		cfgsFor := func(c *ProgCase) []Config {
 			if c.Fam == "MemWalk" { // long walks: only the variants with an exact ledger (cache evictions in MVP-3)
@@ -207,9 +207,9 @@ func init() {
 	// ------------------------------------------------------------------ C08
 	register("C08", func(r *Reporter) {
 		r.Cov["rule"] = "RegDep, MemDep, Shadow, Tail and General cases; each case is run 4 times on fresh machines of every configuration (two of them concurrently with other machines in the same process), once with a parsed Application previously run on a different variant, and the (cycles, registers, memory) triples must be identical. The specification's role is input selection; non-trivial = at least 3 executed instructions"
-		fams := []famRun{famRunOf("RegDep", "small"), famRunOf("MemDep", "small"), famRunOf("Tail", "small"), famRunOf("Shadow", "small")}
+		fams := []famRun{famRunOf("RegDep", "small"), famRunOf("MemDep", "small"), famRunOf("Tail", "small"), famRunOf("Shadow", "small"), famRunOf("Repo", "small")}
 		if tier == "thorough" {
-			fams = []famRun{famRunOf("RegDep", "large"), famRunOf("MemDep", "large"), famRunOf("Tail", "large"), famRunOf("Shadow", "large"), generalRuns()[1]}
+			fams = []famRun{famRunOf("RegDep", "large"), famRunOf("MemDep", "large"), famRunOf("Tail", "large"), famRunOf("Shadow", "large"), famRunOf("Repo", "large"), generalRuns()[1]}
 		}
 		detRun(r, fams)
 	})
